@@ -37,12 +37,15 @@ fn build(cfg: &[u16]) -> Built {
         cfg.channels.push(crate::cfgspec::ChanSpec { name: "#pre0".into(), topic: Some("configured".into()), flags: "nt".into(), voices: vec!["n1".into()], ..Default::default() });
         prof.chans.push("#pre0".into());
     }
-    Built {
-        cfg,
-        prof,
-        prelude_users: users,
-        setup: vec![],
-    }
+    crate::checks::mbchecks::enrich(
+        Built {
+            cfg,
+            prof,
+            prelude_users: users,
+            setup: vec![],
+        },
+        &mut s,
+    )
 }
 
 // C04 owns: the roster views (353 / 352 / 319) and the *presence* of JOIN/PART/KICK/NICK
